@@ -301,6 +301,36 @@ func (env *c01Env) mutants(full bool) []c01Mutant {
 	add("cert-swapped-foreign-signed-genuine-key", c01FromParts(pB, c01SignPSS(crng, env.keyA, pB, crypto.SHA256, 32)))
 	gRoot := env.goldenFor(env.rootA)
 	add("cert-is-root-signed-by-leaf-key", c01Resign(crng, gRoot, env.keyA))
+	// ---- signer certificates for the genuine key issued by the genuine root under ANOTHER algorithm
+	// (the algorithm a certificate was signed with says nothing about the subject key's endorsements:
+	// only RSA-PSS/SHA-256/salt 32 over the payload is authentic, whatever the issuer used)
+	if ms, _ := memKeys(); ms.Keys[memRootKey] != nil {
+		for _, alt := range []struct {
+			name string
+			alg  x509.SignatureAlgorithm
+			sign func([]byte) []byte
+		}{
+			{"sha256rsa-pkcs1", x509.SHA256WithRSA, func(p []byte) []byte { return c01SignPKCS1(env.keyA, p) }},
+			{"sha384pss", x509.SHA384WithRSAPSS, func(p []byte) []byte { return c01SignPSS(crng, env.keyA, p, crypto.SHA384, 48) }},
+			{"sha512pss", x509.SHA512WithRSAPSS, func(p []byte) []byte { return c01SignPSS(crng, env.keyA, p, crypto.SHA512, 64) }},
+		} {
+			tpl := &x509.Certificate{Subject: env.leafA.Subject, SerialNumber: env.leafA.SerialNumber,
+				NotBefore: env.leafA.NotBefore, NotAfter: env.leafA.NotAfter, KeyUsage: env.leafA.KeyUsage,
+				ExtKeyUsage: env.leafA.ExtKeyUsage, SignatureAlgorithm: alt.alg}
+			lb, err := x509.CreateCertificate(crng, tpl, env.rootA, env.keyA.Public(), ms.Keys[memRootKey])
+			if err != nil {
+				panic(err)
+			}
+			leaf, err := x509.ParseCertificate(lb)
+			if err != nil {
+				panic(err)
+			}
+			gAlt := env.goldenFor(leaf)
+			pAlt, _ := proto.Marshal(gAlt)
+			add("cert-issued-"+alt.name+"-signed-pss-sha256", c01FromParts(pAlt, c01SignPSS(crng, env.keyA, pAlt, crypto.SHA256, 32)))
+			add("cert-issued-"+alt.name+"-signed-like-the-cert", c01FromParts(pAlt, alt.sign(pAlt)))
+		}
+	}
 	// ---- padding / hash / salt with the genuine key
 	add("pkcs1v15-genuine-key", c01FromParts(payload, c01SignPKCS1(env.keyA, payload)))
 	add("pss-sha384-genuine-key", c01FromParts(payload, c01SignPSS(crng, env.keyA, payload, crypto.SHA384, 48)))
